@@ -353,8 +353,8 @@ def shrink(case):
 # ------------------------------------------------------------------------------------------------ run
 def run(ctx):
     rng = ctx.rng
-    lz = [gen_lanczos(rng, ctx.quick) for _ in range(ctx.n(8, 100))]
-    sq = [gen_slq(rng, ctx.quick) for _ in range(ctx.n(5, 40))]
+    lz = [gen_lanczos(rng, ctx.quick) for _ in range(ctx.n(5, 100))]
+    sq = [gen_slq(rng, ctx.quick) for _ in range(ctx.n(3, 40))]
     el = [gen_elbo(rng, ctx.quick, mode=md) for md in ("wide", "square", "tall")]      # fewer / as many / more data than dofs
     el += [gen_elbo(rng, ctx.quick) for _ in range(ctx.n(0, 20))]
     wf = [dict(sub="welford", a=[rs(dyadic(rng, -4, 4, 2)) for _ in range(rng.randint(1, 5))],
